@@ -65,6 +65,9 @@ CHECKS['C20'] = ('compiler sanitizers as oracle: every other monitor and a dedic
 CHECKS['C15'] = ('offline differential checker over recorded result digests: one operation table built once per configuration (21 single macros, -O0/-O2/-O3; thorough adds macro pairs, clang, more -O levels), identical deterministic input stream, 64-bit digest per (operation, 256-record chunk), first differing record decoded by re-running both builds in dump mode',
          'Every configuration build evaluates 38 operation groups (every function with a pre-C++11 fallback body individually, integer/bitfield functions, vector/matrix/quaternion algebra, transforms, packing, constructors, decompose, gtx quaternion/dual quaternion, the length_t-templated vector overloads of gtc/round, gtc/ulp, ext/vector_integer) on the same inputs; results must be bit-identical to the default -O2 build (NaN==NaN). A translation unit that compiles in the default configuration but not under a macro is reported as well.',
          TRUST + ' Inputs that reach libm are never compile-time constants (volatile-sourced literals), so compile-time folding cannot masquerade as a configuration difference.', 'DESIGN.md 7/C15')
+CHECKS['C16'] = ('runtime layout monitor: executed sizeof/alignof/address/offset/byte-image facts for every vec/mat/qua instantiation, one build per configuration (17 quick, 48 thorough: default, SWIZZLE, XYZW_ONLY, ALIGNED/DEFAULT_ALIGNED_GENTYPES, INTRINSICS at each ISA level, SIZE_T_LENGTH, QUAT_DATA_WXYZ, CTOR_INIT, CXX98, combinations, clang)',
+         'For L in 1..4, CxR in 2..4 x 2..4, T in bool,i8..u64,float,double and packed/aligned highp/mediump/lowp qualifiers the monitor executes: sizeof, alignof, &v[i]-&v[0], offsets of named members and aliases, column/element/value_ptr addresses, tag write/read across operator[], members, value_ptr and raw bytes in a guarded buffer, make_vec/make_mat/make_quat round trips, length() value and type, the documented typedef sizes and the manual 2.10 struct example.',
+         TRUST + ' Concrete alignments of aligned types other than those the statement names are recorded, not judged.', 'DESIGN.md 7/C16')
 REASONS = {}
 
 checks = []
